@@ -256,6 +256,24 @@ fn make_event(m: &sim::Model, inv: &crate::maps::Inv, rng: &mut Rng, kind: u64, 
             }
             "PWB message with the end-of-message flag on an intermediate chunk too"
         }
+        22 => {
+            // every one of the 256 wires has its bank (sample-less 16-byte packets for those without data), and one more,
+            // malformed wire bank sits somewhere among them
+            let have: Vec<String> = banks.iter().filter(|b| b.0.starts_with('C')).map(|b| b.0.clone()).collect();
+            for w in 0..256usize {
+                let (name, mac, ch) = &inv.wire[w];
+                let nm = format!("C{}{}", name, std::char::from_digit(*ch as u32, 32).unwrap().to_ascii_uppercase());
+                if !have.contains(&nm) {
+                    let mut a = Adc::simple(*mac, *ch, vec![]);
+                    a.suppression = true;
+                    a.requested_samples = 699;
+                    banks.push((nm, a.encode_short()));
+                }
+            }
+            let at = [0, banks.len() / 3, banks.len()][(idx % 3) as usize];
+            banks.insert(at, ("C09A".into(), vec![1, 3, 0, 4]));
+            "all 256 wire banks plus one malformed wire bank"
+        }
         21 => {
             // a complete, valid message from a board that exists but is not installed for this run (its position is
             // unknown): the event fails, whichever group is looked at first
@@ -372,7 +390,8 @@ fn run(ctx: &mut Ctx) {
     // a real-data run: other pad map, calibration files with gaps (a channel without calibration must fail the build in
     // every order and every process alike)
     let inv_real = crate::maps::inverse(11500);
-    let n_events = ctx.tier.pick(35, 120);
+    let inv_9500 = crate::maps::inverse(9500);
+    let n_events = ctx.tier.pick(36, 120);
     let shard = ctx.shard as u64;
     // NOTE: every shard processes *all* events (the comparison across processes is the point);
     // only the permutations differ between shards.
@@ -386,10 +405,11 @@ fn run(ctx: &mut Ctx) {
         }
         ctx.cur_case = i;
         let mut rng = ctx.rng_for("events", i);
-        // the 22 kinds once each, then valid events only (odd ones with per-packet metadata, the spread of the PWB trigger
+        // the 23 kinds once each, then valid events only (odd ones with per-packet metadata, the spread of the PWB trigger
         // timestamps cycling through 8, 0, 4, 1, 9, 1000, 5, unrelated)
-        let run_no: u32 = if i >= 22 && i % 4 == 2 { 11500 } else { u32::MAX };
-        let (banks, what) = make_event(&m, if run_no == u32::MAX { &inv } else { &inv_real }, &mut rng, if i < 22 { i } else { 0 }, i);
+        // (real runs of two calibration periods, the earlier one first on each thread)
+        let run_no: u32 = if i >= 23 && i % 4 == 1 { 9500 } else if i >= 23 && i % 4 == 2 { 11500 } else { u32::MAX };
+        let (banks, what) = make_event(&m, if run_no == u32::MAX { &inv } else if run_no == 9500 { &inv_9500 } else { &inv_real }, &mut rng, if i < 23 { i } else { 0 }, i);
         let what = if run_no == u32::MAX { what } else { "valid multi-track event under a real run number" };
         let groups = {
             let mut g: Vec<&str> = banks.iter().filter(|b| b.0.starts_with("PC")).map(|b| &b.0[..]).collect();
